@@ -69,7 +69,106 @@ fn owner_eq(d: &str) -> bool {
     d.contains(".owner()==") && d.contains("client_pk") || (d.contains("client_pk==") && d.contains(".owner()"))
 }
 
+/// the block of the `RecordKind::Scratchpad => { .. }` arm (a pattern naming only that kind)
+struct PadArm {
+    blocks: Vec<syn::Block>,
+}
+impl<'ast> Visit<'ast> for PadArm {
+    fn visit_arm(&mut self, a: &'ast syn::Arm) {
+        if norm(&a.pat) == "RecordKind::Scratchpad" {
+            if let syn::Expr::Block(b) = &*a.body {
+                self.blocks.push(b.block.clone());
+            }
+        }
+        syn::visit::visit_arm(self, a);
+    }
+}
+
+/// Does the scratchpad arm of `Network::handle_split_record_error` skip a scratchpad whose own address does not map to
+/// the record key being read?  Two-sided: `true` only on recognising that comparison (an `if <pad's record key> != <key>
+/// { .. continue }` ahead of every use of the counter), `false` only on recognising the arm as it was before the check
+/// existed; any other shape is an error (UNTRANSLATABLE).
+pub fn net_split_checks_pad_key(repo: &PathBuf) -> Result<bool, String> {
+    let rel = "ant-networking/src/lib.rs";
+    let file = parse_file(&repo.join(rel))?;
+    let f = impl_fn(&file, "Network", None, "handle_split_record_error")?;
+    let has_key_param = f.sig.inputs.iter().any(|a| norm(a) == "key:&RecordKey");
+    if !has_key_param {
+        return Err(format!("{rel}:handle_split_record_error: no `key: &RecordKey` parameter"));
+    }
+    let mut v = PadArm { blocks: vec![] };
+    v.visit_block(&f.block);
+    if v.blocks.len() != 1 {
+        return Err(format!("{rel}:handle_split_record_error: {} `RecordKind::Scratchpad` arms with a block body", v.blocks.len()));
+    }
+    let arm = &v.blocks[0];
+    // statements of the arm, log macros dropped
+    let stmts: Vec<&syn::Stmt> = arm.stmts.iter().filter(|s| !matches!(s, syn::Stmt::Macro(_))).collect();
+    let texts: Vec<String> = stmts.iter().map(|s| norm(s)).collect();
+    let ends_with_continue = |b: &syn::Block| match b.stmts.last() {
+        Some(syn::Stmt::Expr(syn::Expr::Continue(c), _)) => c.label.is_none(),
+        _ => false,
+    };
+    let is_pad_key = |side: &str| {
+        side.contains("scratchpad")
+            && side.ends_with(".to_record_key()")
+            && (side.contains(".network_address()") || side.contains("from_scratchpad_address(") || side.contains("ScratchpadAddress("))
+    };
+    let is_req_key = |side: &str| side == "*key" || side == "key" || side == "&*key" || side == "key.clone()";
+    let mut key_ifs: Vec<usize> = vec![];
+    for (i, s) in stmts.iter().enumerate() {
+        if let syn::Stmt::Expr(syn::Expr::If(e), _) = s {
+            let c = norm(&e.cond);
+            if !c.contains("to_record_key") {
+                continue;
+            }
+            let sides: Vec<&str> = c.split("!=").collect();
+            let ok = sides.len() == 2
+                && ((is_pad_key(sides[0]) && is_req_key(sides[1])) || (is_pad_key(sides[1]) && is_req_key(sides[0])))
+                && !c.contains("||")
+                && !c.contains("&&")
+                && e.else_branch.is_none()
+                && ends_with_continue(&e.then_branch)
+                && !norm(&e.then_branch).contains("valid_scratchpad=");
+            if !ok {
+                return Err(format!("{rel}:handle_split_record_error: scratchpad arm compares a record key in an unknown way: `{c}`"));
+            }
+            key_ifs.push(i);
+        }
+    }
+    let first_count = texts.iter().position(|t| t.contains(".count()") || t.contains("valid_scratchpad="));
+    let deser = texts.iter().position(|t| t.starts_with("letOk(scratchpad)=try_deserialize_record::<Scratchpad>(record)else{") && t.contains("continue"));
+    let Some(deser) = deser else {
+        return Err(format!("{rel}:handle_split_record_error: scratchpad arm does not deserialise `scratchpad` with let-else-continue"));
+    };
+    let Some(first_count) = first_count else {
+        return Err(format!("{rel}:handle_split_record_error: scratchpad arm never compares counters / selects a scratchpad"));
+    };
+    match key_ifs.as_slice() {
+        [i] if deser < *i && *i < first_count => Ok(true),
+        [] => {
+            // the arm as it was: deserialise, `if !scratchpad.is_valid() { continue }`, `if let Some(old) = &valid_scratchpad {..}`,
+            // and no other mention of the key or of the pad's address/owner
+            let old_shape = texts.len() == 3
+                && deser == 0
+                && texts[1].starts_with("if!scratchpad.is_valid(){")
+                && texts[2].starts_with("ifletSome(old)=&valid_scratchpad{ifold.count()>=scratchpad.count(){");
+            let mentions = texts.iter().any(|t| {
+                let t = t.replace("pretty_key", "");
+                t.contains("key") || t.contains(".address()") || t.contains(".owner()") || t.contains("network_address")
+            });
+            if old_shape && !mentions {
+                Ok(false)
+            } else {
+                Err(format!("{rel}:handle_split_record_error: scratchpad arm is neither the known shape without an address check nor one with a recognised `!= *key` check"))
+            }
+        }
+        _ => Err(format!("{rel}:handle_split_record_error: the record-key check of the scratchpad arm is misplaced or repeated")),
+    }
+}
+
 pub fn generate(repo: &PathBuf) -> Result<String, String> {
+    let net_split_checks = net_split_checks_pad_key(repo)?;
     let rel_pub = "autonomi/src/client/data/public.rs";
     let rel_vault = "autonomi/src/client/vault.rs";
     let public = parse_file(&repo.join(rel_pub))?;
@@ -146,7 +245,7 @@ pub fn generate(repo: &PathBuf) -> Result<String, String> {
         None => true,
     };
 
-    let mut s = header(&format!("{rel_pub}, {rel_vault}"));
+    let mut s = header(&format!("{rel_pub}, {rel_vault}, ant-networking/src/lib.rs"));
     s.push_str("namespace SafeNet.Gen.ClientRead\n");
     s.push_str("/-- `chunk_get` requires the record header kind `RecordKind::Chunk` -/\n");
     s.push_str(&format!("def chunkGetChecksKind : Bool := {}\n", lean_bool(checks_kind)));
@@ -162,6 +261,8 @@ pub fn generate(repo: &PathBuf) -> Result<String, String> {
     s.push_str(&format!("def vaultSplitDropsUndeserialisable : Bool := {}\n", lean_bool(f.filter_map_ok)));
     s.push_str("/-- `SplitRecord` arm: the owner/signature filter is applied before `sort_by_key` / `max_version` (forged versions cannot set the latest version) -/\n");
     s.push_str(&format!("def vaultSplitFiltersBeforeMax : Bool := {}\n", lean_bool(filters_before_max)));
+    s.push_str("/-- `Network::handle_split_record_error`, `Scratchpad` arm: a scratchpad whose own address does not map to the record key being read is skipped before counters are compared -/\n");
+    s.push_str(&format!("def netSplitChecksPadKey : Bool := {}\n", lean_bool(net_split_checks)));
     s.push_str("end SafeNet.Gen.ClientRead\n");
     Ok(s)
 }
